@@ -6,4 +6,4 @@ mkdir -p "$D/gen" "$D/_build"
 (cd "$D/gen" && coqc -Q "$D/../coq" FMP "$D/../coq/Extract/Extract.v" >/dev/null)
 cp "$D/gen/model.ml" "$D/gen/model.mli" "$D"/*.ml "$D/_build/"
 cd "$D/_build"
-ocamlfind ocamlopt -w -a -package zarith,str,unix -linkpkg model.mli model.ml util.ml values.ml c18.ml dec.ml c02.ml c05.ml abstract.ml c13.ml c07.ml c01.ml c19.ml c06.ml conn.ml c17.ml driver.ml -o "$D/../bin/driver"
+ocamlfind ocamlopt -w -a -package zarith,str,unix -linkpkg model.mli model.ml util.ml values.ml c18.ml dec.ml c02.ml c05.ml abstract.ml c13.ml c01.ml c19.ml c06.ml c07.ml conn.ml c17.ml driver.ml -o "$D/../bin/driver"
